@@ -80,6 +80,26 @@ func checkScratchViews(p *Program, r *Result, rule string) {
 				if !instrDominates(in, f) {
 					continue // the view is taken after this fill (or on another path)
 				}
+				// a fill THROUGH this view (io.ReadFull(r, view), or into a re-slice of it) refreshes the view: what is
+				// read through it afterwards are the new bytes, as intended (header := l.buf[:9]; for { ReadFull(r, header); header[0] ... })
+				through := false
+				for d, i := f.Common().Args[1], 0; d != nil && i < 6; i++ {
+					if d == v {
+						through = true
+						break
+					}
+					switch x := d.(type) {
+					case *ssa.Slice:
+						d = x.X
+					case *ssa.ChangeType:
+						d = x.X
+					default:
+						d = nil
+					}
+				}
+				if through {
+					continue
+				}
 				for _, ref := range *v.Referrers() {
 					if ref == ssa.Instruction(f) {
 						continue
